@@ -262,7 +262,7 @@ impl Boudot2000RangeProof {
         while boolean {
             let w = rand_int(
                 Integer::from(0),
-                (Integer::from(2).pow(T) * Integer::from(2).pow(t + l)) * b - Integer::from(1),
+                Integer::from(2).pow(t + l) * b - Integer::from(1),
             );
             let nu = rand_int(
                 -(Integer::from(2).pow(T) * Integer::from(2).pow(t + l + s)) * n + Integer::from(1),
@@ -281,11 +281,7 @@ impl Boudot2000RangeProof {
             D_1 = w + (x * &c);
             D_2 = nu + (r * &c);
 
-            if c * b <= D_1
-                && D_1
-                    <= (Integer::from(2).pow(T) * Integer::from(2).pow(t + l)) * b
-                        - Integer::from(1)
-            {
+            if c * b <= D_1 && D_1 <= Integer::from(2).pow(t + l) * b - Integer::from(1) {
                 boolean = false;
             }
             // verification instrumentation only: a cheating prover gives up after 64 draws and hands out what it has
@@ -309,7 +305,6 @@ impl Boudot2000RangeProof {
         t: u32,
         l: u32,
         b: &Integer,
-        T: u32,
     ) -> bool
     where
         H: Digest,
@@ -326,9 +321,9 @@ impl Boudot2000RangeProof {
         let hash = <H as Digest>::digest(str);
         let output = Integer::from_digits(hash.as_slice(), Order::MsfBe);
 
+        // D_1 in [c * b, 2^(t+l) * b - 1] shows that the committed value lies in [-2^(t+l) * b, 2^(t+l) * b]
         if &(c * Integer::from(b)) <= D_1
-            && D_1
-                <= &(Integer::from(2).pow(T) * (Integer::from(2).pow(t + l) * b - Integer::from(1)))
+            && D_1 <= &(Integer::from(2).pow(t + l) * b - Integer::from(1))
             && C == &output
         {
             return true;
@@ -372,13 +367,15 @@ impl Boudot2000RangeProof {
         #       (i.e., NON-Interactive Sigma protocol of Two secrets - nisp2sec).
         #       We SKIP such Sigma protocol, assuming that this PoK was already done before the range proof. */
 
-        let aa = Integer::from(2).pow(T) * Integer::from(a)
-            - Integer::from(2).pow(l + t + rug::ops::DivRounding::div_floor(T, 2) + 1)
-                * Integer::from(Integer::from(b - a).sqrt_ref());
+        // [Boudot2000] 3.1.2: the proof with tolerance is run on the scaled interval [2^T a, 2^T b]. The rest
+        // x_2 = x - floor(sqrt(x))^2 of a decomposition is at most 2 sqrt(bb - aa) =: b_rest, and the larger-interval
+        // proof with that bound leaves a tolerance of 2^(t+l) * b_rest < 2^T: 2^T x is shown to lie within less than 2^T
+        // of the scaled interval, hence x in [a, b].
+        let aa = Integer::from(2).pow(T) * Integer::from(a);
 
-        let bb = Integer::from(2).pow(T) * Integer::from(b)
-            + Integer::from(2).pow(l + t + rug::ops::DivRounding::div_floor(T, 2) + 1)
-                * Integer::from(Integer::from(b - a).sqrt_ref());
+        let bb = Integer::from(2).pow(T) * Integer::from(b);
+
+        let b_rest = Integer::from((&bb - &aa).complete().sqrt_ref()) * Integer::from(2) + Integer::from(2);
 
         // The proofs of square are about x_a_1, x_b_1 <= sqrt(bb - aa) and about randomness scaled by 2^T: the blinding
         // of their responses must be sized for those, not for the interval bound b and the unscaled s2.
@@ -449,9 +446,9 @@ impl Boudot2000RangeProof {
         let proof_of_square_b =
             Self::proof_of_square::<H>(&x_b_1, &r_b_1, g, h, &E_b_1, l, t, &b_square, s, s1, s2_square, n);
         let proof_large_i_a =
-            Self::proof_large_interval_specific::<H>(&x_a_2, &r_a_2, g, h, t, l, b, s, n, T);
+            Self::proof_large_interval_specific::<H>(&x_a_2, &r_a_2, g, h, t, l, &b_rest, s, n, T);
         let proof_large_i_b =
-            Self::proof_large_interval_specific::<H>(&x_b_2, &r_b_2, g, h, t, l, b, s, n, T);
+            Self::proof_large_interval_specific::<H>(&x_b_2, &r_b_2, g, h, t, l, &b_rest, s, n, T);
 
         // proof_wt = {
         //     'E_a_1': int(E_a_1), 'E_a_2': int(E_a_2), 'E_b_1': int(E_b_1), 'E_b_2': int(E_b_2),
@@ -487,12 +484,10 @@ impl Boudot2000RangeProof {
     where
         H: Digest,
     {
-        let aa = Integer::from(2).pow(T) * Integer::from(a)
-            - Integer::from(2).pow(l + t + rug::ops::DivRounding::div_floor(T, 2) + 1)
-                * Integer::from(Integer::from(b - a).sqrt_ref());
-        let bb = Integer::from(2).pow(T) * Integer::from(b)
-            + Integer::from(2).pow(l + t + rug::ops::DivRounding::div_floor(T, 2) + 1)
-                * Integer::from(Integer::from(b - a).sqrt_ref());
+        // same scaled interval and rest bound as the prover (see proof_of_tolerance_specific)
+        let aa = Integer::from(2).pow(T) * Integer::from(a);
+        let bb = Integer::from(2).pow(T) * Integer::from(b);
+        let b_rest = Integer::from((&bb - &aa).complete().sqrt_ref()) * Integer::from(2) + Integer::from(2);
         let E_a = divm(E, &Integer::from(g.pow_mod_ref(&aa, n).unwrap()), n);
         let E_b = divm(&Integer::from(g.pow_mod_ref(&bb, n).unwrap()), E, n);
         // NOTE: E_a and E_b must be recomputed during the verification,
@@ -529,8 +524,7 @@ impl Boudot2000RangeProof {
                 n,
                 t,
                 l,
-                b,
-                T,
+                &b_rest,
             ) && Self::verify_large_interval_specific::<H>(
                 proof_large_i_b,
                 E_b_2,
@@ -539,8 +533,7 @@ impl Boudot2000RangeProof {
                 n,
                 t,
                 l,
-                b,
-                T,
+                &b_rest,
             );
             return b_s && b_li;
         }
